@@ -62,6 +62,7 @@ Fixpoint close_conn (fuel : nat) (b : book) (id peer : N) : book * list (N * N) 
 
 Inductive bop :=
 | BOpen (peer id : N)
+| BOpenBadKey (peer id : N)   (* the initiator's ephemeral key makes the ECDH fail *)
 | BClose (peer id : N)
 | BReset (peer id : N)
 | BData (peer id serial tag : N)
@@ -87,6 +88,11 @@ Definition bstep (b : book) (o : bop) : book * N * list (N * N) * list (N * N) :
         let r := mkbrec peer id s in
         (* h.connections[streamID] = ac; h.connCount.Add(1) *)
         (mkbook (mset id r (conns b)) (count b + 1) (opened b ++ [r]) (bclosed b) (loops b ++ [s]) (maxc b), 0, [], [])
+  | BOpenBadKey peer id =>
+      (* limit check first; then resolve / allow / keygen / ECDH: the ECDH error
+         path sends STREAM_OPEN_ERR and returns - nothing was registered or counted *)
+      if ((0 <? maxc b)%Z && (maxc b <=? count b)%Z)%bool then (b, 1, [], [])
+      else (b, 3, [], [])
   | BClose peer id | BReset peer id =>
       let '(b', w) := close_conn fuel0 b id peer in (b', 0, w, [])
   | BData peer id serial tag =>
